@@ -644,11 +644,11 @@ where
 			ValueType::Array {
 				element_type,
 				length: _,
-			} => element_type.is_wellformed_element(),
+			} => element_type.is_wellformed_sized_element(),
 			ValueType::ArrayWithNamedLength {
 				element_type,
 				named_length: _,
-			} => element_type.is_wellformed_element(),
+			} => element_type.is_wellformed_sized_element(),
 			ValueType::Slice { element_type } =>
 			{
 				element_type.is_wellformed_element()
@@ -679,6 +679,16 @@ where
 		self.can_be_element() && self.is_wellformed_inner()
 	}
 
+	/// The elements of an array with a length have a size, which `[]T` lacks.
+	fn is_wellformed_sized_element(&self) -> bool
+	{
+		match self
+		{
+			ValueType::Arraylike { .. } => false,
+			_ => self.is_wellformed_element(),
+		}
+	}
+
 	fn is_wellformed_inner(&self) -> bool
 	{
 		match self
@@ -687,11 +697,11 @@ where
 			ValueType::Array {
 				element_type,
 				length: _,
-			} => element_type.is_wellformed_element(),
+			} => element_type.is_wellformed_sized_element(),
 			ValueType::ArrayWithNamedLength {
 				element_type,
 				named_length: _,
-			} => element_type.is_wellformed_element(),
+			} => element_type.is_wellformed_sized_element(),
 			ValueType::Slice { .. } => false,
 			ValueType::SlicePointer { .. } => false,
 			ValueType::EndlessArray { element_type } =>
